@@ -43,7 +43,9 @@ def find_dom(st, pred):
 def scan_table(P, rep):
     """-> {mode: [(line class set, czero: True|False|None, action)]}  action = ('cont', dc) | ('this',) | ('next',) | ('none',)"""
     fn = "parser::skip"
-    M = absint.Machine(P, max_depth=5, opaque={"document::document::line"}, loop_limit=1)
+    # the generated parser is opaque: what counts is which of its entry points is asked about the line, and what is done with the answer
+    parser_entries = {k for k in P.body if re.match(r"^document::document::\w+$", k) and not k.split("::")[-1].startswith("__")}
+    M = absint.Machine(P, max_depth=5, opaque=parser_entries, loop_limit=1)
     M.havoc_loops = True
     paths = M.explore(fn, M.arg_unknowns(fn))
     if M.capped or M.unsupported:
@@ -68,6 +70,7 @@ def scan_table(P, rep):
                 if sy[1].endswith("@loop"):
                     read.add(sy[1][:-5])
     cl = [i for i in cl if b["locals"][i]["name"] in read]
+    classifiers = set()
     for p in paths:
         st = p.state
         _, md = find_dom(st, lambda n: n == "ni#d")
@@ -76,11 +79,20 @@ def scan_table(P, rep):
             continue
         path_modes = [mv[x] for x in sx.dom_iter(sx.dom_norm(md))]
         mode = path_modes[0]
-        # line class
+        # line class: said by the *classifier*, the parser entry whose answer's directive is looked at (or, on a path that found no
+        # directive, the entry that was asked first)
         _, nd = find_dom(st, lambda n: re.match(r"^next\(.*\)@\d+#d$", n) is not None)
-        _, ld = find_dom(st, lambda n: n.startswith("line(") and n.endswith("#d") and ":Ok.0" not in n)
-        _, dd = find_dom(st, lambda n: n.startswith("line(") and n.endswith(":Ok.0#d"))
-        _, xd = find_dom(st, lambda n: n.endswith(":DirectiveLine.1#d"))
+        xs, xd = find_dom(st, lambda n: n.endswith(":DirectiveLine.1#d"))
+        asked = []
+        for e, t in p.conds:
+            m = re.match(r"^\((\w+)\(next\(.*?\)@\d+#d == [01]\)$", sx.show(e))
+            if m and m.group(1) not in asked and "document::document::" + m.group(1) in parser_entries:
+                asked.append(m.group(1))
+        classifier = re.match(r"^(\w+)\(", xs[1]).group(1) if xs is not None else (asked[0] if asked else None)
+        if classifier:
+            classifiers.add(classifier)
+        _, ld = find_dom(st, lambda n: classifier is not None and re.match(r"^%s\(.*\)@\d+#d$" % classifier, n) is not None)
+        _, dd = find_dom(st, lambda n: classifier is not None and n.startswith(classifier + "(") and n.endswith(":Ok.0#d"))
         if nd is not None and sx.dom_size(nd) == 1 and sx.dom_min(nd) == 0:
             cls = {"<eof>"}
         elif ld is not None and sx.dom_size(ld) == 1 and sx.dom_min(ld) == 1:
@@ -93,20 +105,33 @@ def scan_table(P, rep):
             cls = {"<no-scan>"}
         else:
             cls = {"<plain>"}
-        # a decision taken on the text of the line by anything but the line parser (or the nesting guard in front of it, whose refusal
-        # makes the line unparsable everywhere) says nothing about the line's class: such a path may be taken by a line of any class
+        # whether the line is well formed, when that is asked besides its class: the full line parser's verdict (and the nesting guard in
+        # front of it, whose refusal makes the line unparsable everywhere).  A decision taken on the text of the line by anything else says
+        # nothing about the line: such a path may be taken by a line of any class
+        wf = None
         for e, t in p.conds:
             sh = sx.show(e)
             if ":Some.0.1" not in sh:
                 continue
             m = re.match(r"^\(+([\w:<> ]+?)\(", sh)
             head = m.group(1).split("::")[-1] if m else "?"
+            if head == classifier:
+                continue
             if head == "line":
+                # (line(..)#d == 0) true: Ok
+                isok = t if sh.endswith("#d == 0)") else ((not t) if sh.endswith("#d == 1)") else None)
+                if isok is None:
+                    cls = {"<any>"}
+                    untrusted.add(sh[:120])
+                elif wf is not False:
+                    wf = isok
                 continue
             if head in guard_names:
                 refused = t if sh.endswith("== 0)") else (not t)
                 if refused:
-                    cls = {"<unparsable>"}
+                    if classifier == "line" or classifier is None:
+                        cls = {"<unparsable>"}
+                    wf = False
                 continue
             cls = {"<any>"}
             untrusted.add(sh[:120])
@@ -136,18 +161,20 @@ def scan_table(P, rep):
         elif p.exit == "ret":
             rv = p.ret
             flag = False
-            if rv[0] == 'agg' and rv[1] is None and len(rv[3]) == 2:
-                fe = M.as_int(st, rv[3][1])
-                if fe is None or not sx.is_const(fe):
-                    rep.unprovable("C08.scan|flag", "second component of skip's result is not constant on a path")
+            unterminated = False
+            if rv[0] == 'agg' and rv[1] is None and len(rv[3]) in (2, 3):
+                comps = [M.as_int(st, x) for x in rv[3][1:]]
+                if any(fe is None or not sx.is_const(fe) for fe in comps):
+                    rep.unprovable("C08.scan|flag", "a flag component of skip's result is not constant on a path")
                     continue
-                flag = bool(sx.cval(fe))
+                flag = bool(sx.cval(comps[0]))
+                unterminated = len(comps) > 1 and bool(sx.cval(comps[1]))
                 rv = rv[3][0]
             d = M.describe(st, rv)
             if d.startswith("Option::Some("):
                 act = ('this', flag)
             elif d == "Option::None":
-                act = ('none', flag)
+                act = ('none', flag, unterminated)
             elif re.match(r"^next\(.*\)@\d+$", d):
                 act = ('next', flag)
             else:
@@ -157,25 +184,26 @@ def scan_table(P, rep):
             rep.unprovable("C08.scan|exit", "a path of skip ends with %s" % p.exit)
             continue
         for m_ in path_modes:
-            table.setdefault(m_, []).append((cls, czero, act))
+            table.setdefault(m_, []).append((cls, czero, act, wf))
         # inertness: events of effectful calls on scan paths (other than next/line/clone of the macro name)
         for ev in p.events:
             if ev[0] == 'call' and any(m_ in ("EndIf", "EndChain") for m_ in path_modes) and "EndMacro" not in path_modes:
                 nm = ev[1]
-                if not (nm.endswith("Iterator::next") or nm == "document::document::line" or "Drop" in nm or "drop" in nm):
+                if not (nm.endswith("Iterator::next") or nm in parser_entries or "Drop" in nm or "drop" in nm):
                     effects.append(nm)
     rep.ob("C08.scan|text-predicate", not untrusted, "while skipping, a line's role is decided only by the line parser's result (and the nesting guard in front of it)" if not untrusted else
            "while skipping, skip() branches on the text of the line with %s — a test that is not the line parser: a line of any class (an `.endif` with a label, a `#else`) may take that branch" % sorted(untrusted)[0],
            detail=sorted(untrusted))
+    scan_table.classifiers = sorted(classifiers)
     return table, sorted(set(effects)), len(paths)
 
 
-def scan_step(table, mode, cls, c):
-    """action of the extracted scanner for one line"""
+def scan_step(table, mode, cls, c, wf=True):
+    """action of the extracted scanner for one line (wf: whether the whole line is well formed)"""
     hits = []
-    for classes, czero, act in table.get(mode, []):
+    for classes, czero, act, need_wf in table.get(mode, []):
         if cls in classes or (cls != "<eof>" and "<any>" in classes) or (cls not in KNOWN and "<other>" in classes):
-            if czero is None or czero == (c == 0):
+            if (czero is None or czero == (c == 0)) and (need_wf is None or need_wf == wf):
                 hits.append(act)
     return hits
 
@@ -293,7 +321,26 @@ def dispatch_facts(P, rep):
 
 
 # ------------------------------------------------------------------------------------------------ product exploration
-def explore_product(scan, parse, dispatch, depth=DEPTH):
+MALFORMED = {"IfX": ("If", ".if @0 == 1"), "EndifX": ("Endif", ".endif ]")}
+
+
+def malformed_classes(P):
+    """How the scanner's classifier sees a conditional directive whose operands are not well formed (`.if @0 == 1` in the body of a macro
+    definition, `.endif ]`): as that directive if the classifier's grammar rule matches such a line, as unparsable text otherwise."""
+    import grammar
+    import peg
+    g, _ = grammar.load_checked(P)
+    out = {}
+    for letter, (d, sample) in MALFORMED.items():
+        seen = set()
+        for c in getattr(scan_table, "classifiers", []) or ["line"]:
+            tr = peg.full_match(g, c, sample, lambda rule, act, caps: True) if c in g.rules else None
+            seen.add(d if tr is not None else "<unparsable>")
+        out[letter] = seen.pop() if len(seen) == 1 else "<unparsable>"
+    return out
+
+
+def explore_product(scan, parse, dispatch, depth=DEPTH, malformed=None):
     """BFS over product states.  Alphabet: P, ('I', c), ('E', c), L, N, X (unparsable text)  with c in {True, False}.
     Reference state: tuple of frames (parent_active, taken, seen_else); active = top.parent_active and current arm selected.
     Implementation state: ('asm',) | ('skip', mode, counter)."""
@@ -322,11 +369,12 @@ def explore_product(scan, parse, dispatch, depth=DEPTH):
         if len(stack) < depth:
             for kind in OPENERS:
                 letters += [(kind, True), (kind, False)]
+            letters += [("IfX", None)]
         if stack:
             top = stack[-1]
             if not top[2]:
                 letters += [("ElIf", True), ("ElIf", False), ("Else", None)]
-            letters += [("Endif", None)]
+            letters += [("Endif", None), ("EndifX", None)]
         for letter, c in letters:
             ntrans += 1
             # ---- reference
@@ -353,6 +401,17 @@ def explore_product(scan, parse, dispatch, depth=DEPTH):
                 pa, taken, se = stack[-1]
                 rstack = stack[:-1]
                 ractive = pa
+            elif letter == "IfX":
+                # an .if whose operands are not well formed: at fault where it is assembled, one more (dead) level where it is not
+                ref_emit = active
+                rstack = stack + ((False, False, False),)
+                ractive = False
+            elif letter == "EndifX":
+                # an .endif with something behind it: at fault when its chain belongs to assembled text, else it closes a dead level
+                pa, taken, se = stack[-1]
+                ref_emit = pa
+                rstack = stack[:-1]
+                ractive = pa
             # a condition the reference does not evaluate is "don't care" for it, but both outcomes are tried on the implementation
             # ---- implementation (extracted tables)
             impl2 = impl
@@ -360,10 +419,13 @@ def explore_product(scan, parse, dispatch, depth=DEPTH):
             impl_eval = False
             problem = None
             cls = {"P": "<plain>", "X": "<unparsable>"}.get(letter, letter)
+            wf = letter not in ("X", "IfX", "EndifX")
+            if letter in MALFORMED:
+                cls = (malformed or {}).get(letter, "<unparsable>")
             steps = 0
             pending = True
             # flag delivered with a line fetched in normal (NewLine) mode
-            nl_acts = {a for c_, z_, a in scan.get("NewLine", [])}
+            nl_acts = {a for c_, z_, a, w_ in scan.get("NewLine", [])}
             flag = list(nl_acts)[0][1] if len(nl_acts) == 1 else False
             while pending and steps < 3:
                 steps += 1
@@ -371,7 +433,7 @@ def explore_product(scan, parse, dispatch, depth=DEPTH):
                 if impl2[0] == 'asm':
                     if letter == "P":
                         impl_emit = True
-                    elif letter == "X":
+                    elif letter in ("X", "IfX", "EndifX"):
                         impl_emit = True        # unparsable text in an assembled region is an error = it has an effect
                     else:
                         acts_d = dispatch.get((letter, flag)) or dispatch.get((letter, None))
@@ -390,7 +452,7 @@ def explore_product(scan, parse, dispatch, depth=DEPTH):
                         impl2 = ('asm',) if mode == "NewLine" else ('skip', mode, 0)
                 else:
                     _, mode, cnt = impl2
-                    acts = scan_step(scan, mode, cls, cnt)
+                    acts = scan_step(scan, mode, cls, cnt, wf)
                     if len(set(acts)) != 1:
                         problem = "SCAN[%s] has %d entries for line class %s (counter %d)" % (mode, len(set(acts)), cls, cnt)
                         break
@@ -413,11 +475,13 @@ def explore_product(scan, parse, dispatch, depth=DEPTH):
             if problem:
                 violations.append(("table", problem, word))
                 continue
-            if letter in ("P", "X") and impl_emit != ref_emit:
+            if letter in ("P", "X", "IfX", "EndifX") and impl_emit != ref_emit:
                 violations.append(("select", "line %d (%s) is %s by the implementation but %s by the reference" % (
-                    len(word), "plain" if letter == "P" else "unparsable text", "assembled" if impl_emit else "skipped",
-                    "selected" if ref_emit else "not selected"), word))
+                    len(word), {"P": "plain", "X": "unparsable text", "IfX": "an .if with malformed operands", "EndifX": "a malformed .endif"}[letter],
+                    "assembled" if impl_emit else "skipped", "selected" if ref_emit else "not selected"), word))
                 continue
+            if letter in ("IfX", "EndifX") and ref_emit:
+                continue        # the build has failed on this line: nothing follows
             if impl_eval and not ref_eval:
                 violations.append(("eval", "the condition on line %d is evaluated although its arm cannot be selected (an undefined symbol there would fail the build)" % len(word), word))
             if ref_eval and not impl_eval and letter in OPENERS + ("ElIf",):
@@ -431,7 +495,7 @@ def explore_product(scan, parse, dispatch, depth=DEPTH):
 
 def fmt(letter, c):
     if c is None:
-        return {"P": "P", "X": "X", "Else": "else", "Endif": "endif"}.get(letter, letter.lower())
+        return {"P": "P", "X": "X", "Else": "else", "Endif": "endif", "IfX": "if?", "EndifX": "endif?"}.get(letter, letter.lower())
     return "%s%s" % (letter.lower(), "+" if c else "-")
 
 
@@ -458,7 +522,7 @@ def run(tier):
     rep.count("paths of skip", nscan)
     rep.count("paths of Directive::parse (conditional directives)", nparse)
     rep.count("paths of parse_iter", ndisp)
-    rep.extra["scan_table"] = {m: [[sorted(c) if len(c) < 8 else "%d directives" % len(c), z, list(a)] for c, z, a in v] for m, v in scan.items()}
+    rep.extra["scan_table"] = {m: [[sorted(c) if len(c) < 8 else "%d directives" % len(c), z, list(a), w] for c, z, a, w in v] for m, v in scan.items()}
     rep.extra["parse_table"] = {"%s|%s" % k: sorted(map(list, v)) for k, v in parse.items()}
     # extraction sanity
     rep.ob("C08.extract|scan", "EndIf" in scan and len(scan["EndIf"]) >= 8, "SCAN table extracted for the skipping mode (%d entries)" % len(scan.get("EndIf", [])), kind="unprovable")
@@ -496,7 +560,9 @@ def run(tier):
            "while skipping, the scanner can reach %s" % sorted(bad_callees))
     if miss or "EndIf" not in scan:
         return rep
-    violations, nstates, ntrans = explore_product(scan, parse, dispatch)
+    malformed = malformed_classes(P)
+    rep.extra["malformed_directive_classes"] = malformed
+    violations, nstates, ntrans = explore_product(scan, parse, dispatch, malformed=malformed)
     rep.extra["states"] = nstates
     rep.extra["transitions"] = ntrans
     rep.extra["traces_validated_against_impl"] = 0
@@ -519,6 +585,6 @@ def run(tier):
         rep.ob("C08.sel|%s" % ";".join(word), False, "skeleton `%s`: %s" % (" / ".join(word), text), detail={"skeleton": list(word)})
     rep.ob("C08.product", not violations, "implementation and reference agree on every reachable product state (%d states, %d transitions, depth <= %d)" % (nstates, ntrans, DEPTH) if not violations else
            "%d disagreeing transitions (shortest skeletons reported above)" % len(violations), nontrivial=True,
-           sample={"states": nstates, "transitions": ntrans, "alphabet": ["P", "X", "if±", "ifdef±", "ifndef±", "elif±", "else", "endif"]})
+           sample={"states": nstates, "transitions": ntrans, "alphabet": ["P", "X", "if±", "ifdef±", "ifndef±", "elif±", "else", "endif", "if?", "endif?"]})
     rep.samples.append({"example skeleton": ["if-", "P", "elif+", "P", "else", "P", "endif"], "meaning": "one product run; all runs up to the depth bound are covered by BFS"})
     return rep
